@@ -957,6 +957,7 @@ TRANSPARENT_METHODS = {
     'as_mut_ptr', 'cast', 'by_ref', 'into_iter', 'iter', 'as_path', 'to_path_buf', 'to_vec', 'as_os_str',
     'from_residual', 'try_into', 'try_from', 'map_err', 'ok_or', 'ok_or_else', 'unwrap_or_default', 'copied', 'cloned',
     'to_string', 'into_boxed_slice', 'new_unchecked', 'get_mut', 'get_ref', 'into_inner', 'index', 'index_mut',
+    'inspect_err', 'inspect',
 }
 
 
@@ -1434,6 +1435,50 @@ def reachable_ps(body, start, removed_blocks=(), removed_edges=(), env0=None):
                 seen.add(st2)
                 st.append(st2)
     return blocks
+
+
+def must_derive_ip(prog, body, local, is_src, depth=3, extra_transparent=(), _stack=()):
+    """interprocedural must-derive: like must_derive, and additionally
+    - the result of an exactly resolved call to a workspace function counts when that function's return value must-derives from a source
+      (helper extracted around the source, e.g. `fn prepare_dir() -> PathBuf { .. canonicalize(..) }`);
+    - a parameter of a non-public workspace function counts when the corresponding argument must-derives from a source at every call site
+      (the consumer was moved into a helper that receives the value)."""
+    if depth < 0 or (body.key, local) in _stack:
+        return False
+    stack = _stack + ((body.key, local),)
+
+    def src(kind, obj, bb):
+        if is_src(kind, obj, bb):
+            return True
+        # error results carry no payload: neutral for the derivation of the Ok value
+        if kind == 'call' and obj.cmethod == 'from_residual':
+            return True
+        if kind == 'assign' and obj.kind == 'assign' and obj.rv is not None and obj.rv.r == 'aggregate' and obj.rv.j.get('variant') in ('Err', 'None') and not obj.place[1]:
+            return True
+        if kind == 'call':
+            cands, exact = resolve_call(prog, body, obj)
+            if exact and len(cands) == 1 and cands[0].kind != 'Closure' and cands[0].pkg == body.pkg:
+                c = cands[0]
+                return must_derive_ip(prog, c, 0, is_src, depth - 1, extra_transparent, stack)
+            return False
+        if kind == 'param':
+            if body.kind == 'Closure' or body.impl_trait or (body.abi or 'Rust') != 'Rust':
+                return False
+            sites = []
+            for b2 in prog.crates[body.pkg].bodies:
+                for blk in b2.calls():
+                    cands, exact = resolve_call(prog, b2, blk.term)
+                    if exact and len(cands) == 1 and cands[0].key == body.key:
+                        sites.append((b2, blk))
+            if not sites:
+                return False
+            for b2, blk in sites:
+                a = blk.term.args[obj - 1] if obj - 1 < len(blk.term.args) else None
+                if a is None or a.place is None or not must_derive_ip(prog, b2, a.place[0], is_src, depth - 1, extra_transparent, stack):
+                    return False
+            return True
+        return False
+    return must_derive(body, local, src, extra_transparent=extra_transparent)
 
 
 STD_VARIANT_DISCR = {'Ok': 0, 'Err': 1, 'Continue': 0, 'Break': 1, 'None': 0, 'Some': 1}
